@@ -11,7 +11,7 @@ for d in /verif/seeded/*/; do
   name=$(basename $d)
   [ -f "$d/meta.json" ] || continue
   prop=$(python3 -c "import json;print(json.load(open('$d/meta.json'))['breaks_property'])")
-  res=$(/verif/tools/try_mutant.sh "$d/patch.diff" $tier $prop 2>&1 | head -1)
+  res=$(/verif/tools/try_mutant.sh "$d/patch.diff" $tier $prop 2>&1 | grep "rc=" | head -1)
   nv=$(echo "$res" | sed -n 's/.*violations=\([0-9]*\).*/\1/p')
   first=$(echo "$res" | sed 's/.*what: //' | cut -c1-140 | tr '|' '/')
   if [ "${nv:-0}" -gt 0 ]; then verdict="caught ($nv signatures)"; else verdict="MISSED: $res"; first=""; fi
